@@ -633,7 +633,7 @@ impl RandomProp for Geo {
         .boxed()
     }
     fn cases(env: &Env) -> u64 {
-        env.n(60_000, 4_000_000)
+        env.n(300_000, 20_000_000)
     }
 }
 
